@@ -18,7 +18,7 @@
 //   sys
 //   ok bits*n | iters=<n> cap=<0/1> walk=<n> boundary=<n> full=<n> stuck=<n> constr=<n>
 //               rowadd=<calls> madd=<calls adding >= 2 rows> rowdel=<calls> mdel=<calls deleting >= 2 rows> maxrows=<n> refac=<n> retries=<n>
-//               forced=<walk_descents calls that took the last trial although no trial reduced the residual (d_res >= 0)>
+//               forced=<walk_descents calls that took the last trial although no trial reduced the residual (d_res >= 0)> fidx=<their trial indices>
 //               [ldkkt=<0/1> ldneed=<f> ldtol=<f>: long-double KKT verdict of this harness, kinds >= 8; cross-checked against the exact driver]
 //   hang | abort <status>
 #include <cholmod.h>
@@ -452,9 +452,16 @@ int count_sub(const std::string& hay, const char* needle) { int n = 0; size_t p 
 // walk_descents prints "alpha[k] = <a>, d_res = <residual(trial k) - residual(current)>" for the trial it takes; it takes a trial
 // either because it reduced the residual (d_res < 0) or because it is the last one (forced step, feasible = false): count the
 // lines with d_res >= 0
-int count_forced(const std::string& verb) {
+int count_forced(const std::string& verb, std::string* idx = nullptr) {
   int n = 0; size_t p = 0; const char* needle = "d_res = ";
-  while ((p = verb.find(needle, p)) != std::string::npos) { p += strlen(needle); if (!(strtod(verb.c_str() + p, nullptr) < 0)) n++; }
+  while ((p = verb.find(needle, p)) != std::string::npos) {
+    p += strlen(needle);
+    if (!(strtod(verb.c_str() + p, nullptr) < 0)) {
+      n++;
+      size_t a = verb.rfind("alpha[", p);      // the index of the trial taken: "\talpha[<k>] = ..."
+      if (idx && a != std::string::npos) { if (!idx->empty()) *idx += ","; *idx += std::to_string(atoi(verb.c_str() + a + 6)); }
+    }
+  }
   return n;
 }
 
@@ -495,7 +502,8 @@ std::string solve_child(const Sys& s, int solver, double tol, int nthreads) {
   int addc = 0, addm = 0, delc = 0, delm = 0, maxr = 0;
   count_rowmods(verb, "\tAdd ", addc, addm, maxr); count_rowmods(verb, "\tDelete ", delc, delm, maxr);
   o << " rowadd=" << addc << " madd=" << addm << " rowdel=" << delc << " mdel=" << delm << " maxrows=" << maxr
-    << " refac=" << count_sub(verb, "Recomputing factorization from scratch") << " forced=" << count_forced(verb);
+    << " refac=" << count_sub(verb, "Recomputing factorization from scratch");
+  { std::string fidx; int nf = count_forced(verb, &fidx); o << " forced=" << nf << " fidx=" << (fidx.empty() ? "-" : fidx); }
   return o.str();
 }
 
